@@ -680,9 +680,9 @@ impl CertificateParams {
 			// Write validity
 			writer.next().write_sequence(|writer| {
 				// Not before
-				write_dt_utc_or_generalized(writer.next(), self.not_before);
+				write_dt_utc_or_generalized(writer.next(), self.not_before)?;
 				// Not after
-				write_dt_utc_or_generalized(writer.next(), self.not_after);
+				write_dt_utc_or_generalized(writer.next(), self.not_after)?;
 				Ok::<(), Error>(())
 			})?;
 			// Write subject
